@@ -13,6 +13,7 @@ from concurrent.futures import ProcessPoolExecutor
 import numpy as np
 
 from .. import coq
+from ..trees import scramble
 from .C02 import _forests, _tsize, _tuplify, assign_points, max_kids, nodes_of
 
 
@@ -84,7 +85,7 @@ def gen_grid(rng, kind, G):
     raise ValueError(kind)
 
 
-def eval_tree(ctx, ci, f_key, roots, G, S, kind, n_out, grids, records, tasks):
+def eval_tree(ctx, ci, f_key, roots, G, S, kind, n_out, grids, records, tasks, history=()):
     """run the implementation on one tree; check grid membership, feasibility and prevalences on its output; queue the
     brute-force maximum"""
     from phyclone.data.base import DataPoint
@@ -104,8 +105,11 @@ def eval_tree(ctx, ci, f_key, roots, G, S, kind, n_out, grids, records, tasks):
         rec(r)
     for i in range(npts, npts + n_out):
         tree.add_data_point_to_outliers(data[i])
+    tree = scramble(tree, history)
+    for op in history:
+        ctx.count("edit=%s" % op[0])
     sig = (len(nodes_of(roots)), max_kids(roots), 0)
-    replay = {"roots": roots, "grid": G, "samples": S, "kind": kind, "outliers": n_out, "grids": grids}
+    replay = {"roots": roots, "grid": G, "samples": S, "kind": kind, "outliers": n_out, "grids": grids, "history": [list(op) for op in history]}
     key_base = "C10:get_map_node_ccfs_and_clonal_prev_dicts:%%s:nodes=%d:kids=%d" % (sig[0], sig[1])
     try:
         ccf, prev = get_map_node_ccfs_and_clonal_prev_dicts(tree)
@@ -206,7 +210,8 @@ def run(ctx):
         "every unlabelled forest shape with 1..%d clones (exhaustive over shapes; sibling order, 1-2 data points per clone, optional outlier "
         "points, grid size 2..10 (thorough 2..12), 1-3 samples drawn from the seeded generator) x integer log-likelihood grids of four kinds (wide-range: "
         "unique optimum; peaked; narrow-range and flat: many ties); get_map_node_ccfs_and_clonal_prev_dicts compared with a brute-force maximum "
-        "over all G^clones index assignments and with the Coq model; non-trivial = at least two clones and more than one feasible assignment; "
+        "over all G^clones index assignments and with the Coq model; half of the trees first go through 1-3 shape-preserving edits (prune a subtree and graft it "
+        "back, relabel_nodes, to_dict/from_dict) so that child order and node ids are not those of a freshly built tree; non-trivial = at least two clones and more than one feasible assignment; "
         "distinct = (shape, grid size, grid kind, sample)" % nmax
     )
     ctx.exhaustive = True
@@ -229,7 +234,12 @@ def run(ctx):
         roots, npts = assign_points(rng, f, 2)
         n_out = rng.choice((0, 0, 1, 2))
         grids = [[gen_grid(rng, kind, G) for _ in range(S)] for _ in range(npts + n_out)]
-        eval_tree(ctx, ci, f, roots, G, S, kind, n_out, grids, records, tasks)
+        # half of the trees go through the edits a sampler / the trace applies before the summary sees them
+        history = []
+        if rng.random() < 0.5:
+            for _ in range(rng.randint(1, 3)):
+                history.append(rng.choice([("regraft", rng.randrange(1000)), ("regraft", rng.randrange(1000)), ("relabel",), ("dict",)]))
+        eval_tree(ctx, ci, f, roots, G, S, kind, n_out, grids, records, tasks, history=history)
     ctx.log("%d trees, %d (tree, sample) instances" % (len(plan), len(records)))
     with ProcessPoolExecutor(max_workers=6) as ex:
         results = list(ex.map(brute_max, tasks, chunksize=4))
@@ -250,7 +260,7 @@ def replay(ctx, doc):
         return
     records, tasks = [], []
     roots = _tuplify(r["roots"])
-    eval_tree(ctx, 0, "replay", roots, r["grid"], r["samples"], r.get("kind", "replay"), r.get("outliers", 0), r["grids"], records, tasks)
+    eval_tree(ctx, 0, "replay", roots, r["grid"], r["samples"], r.get("kind", "replay"), r.get("outliers", 0), r["grids"], records, tasks, history=[tuple(op) for op in r.get("history", [])])
     results = [brute_max(t) for t in tasks]
     for rec_, res in zip(records, results):
         ctx.log("sample %d: reported %r score %d; brute-force max %d (%d maximisers, %d feasible)" % (rec_["s"], rec_["idx"], rec_["score"], res[0], res[1], res[2]))
